@@ -44,7 +44,8 @@ EXPECTED_PROBES = ["fault_before_first_attr", "fault_in_write_skip_metadata",
                    "fault_in_chunk_of_multichunk_array", "fault_during_nested_object",
                    "genuine_unpicklable_attribute", "second_fault_in_history", "old_object_survived",
                    "target_absent_after", "target_unreadable_after",
-                   "write_once_refused", "stragglers_at_raise", "recovery_save_ok"]
+                   "write_once_refused", "stragglers_at_raise", "recovery_save_ok",
+                   "hardlinked_foreign_file", "hardlinked_snapshot_of_saved_object"]
 # thorough tier only: "sweep_exhaustive" / "sweep_strided" count how many workloads were swept over
 # EVERY fault position and how many (more than 700 store positions) over a stride
 
@@ -111,6 +112,11 @@ def gen(rng: Rng, tier, i):
     n_pos = TIERS[tier]["positions"]
     return {"versions": versions, "target": tgt, "pre": pre, "pre_size": pre_size, "steps": steps,
             "focus": focus,
+            # a second NAME for the target's data (rsync --link-dest / cp -al style snapshots): a
+            # pre-existing foreign file gets a hard link elsewhere, and after every successful save
+            # the harness hard-links the object's file(s) into a snapshot outside the target.  A save
+            # that rewrites an existing file in place instead of unlinking it alters those paths.
+            "hardlinks": rng.fork("hardlinks").chance(0.35),
             "unpicklable": unpick, "positions": f"sample:{n_pos}" if n_pos != "all" else "all",
             "env": serio.gen_env(rng.fork("env")), "pos_seed": rng.randrange(2 ** 32)}
 
@@ -152,6 +158,8 @@ def _setup_pre(E, plan, tgt_path):
         with open(tgt_path, "wb") as f:
             # empty, tiny and larger foreign files (size-dependent handling must not exist)
             f.write(b"foreign file contents \x00\x01" * [0, 1, 7, 300][plan.get("pre_size", 2) % 4])
+        if plan.get("hardlinks"):
+            os.link(tgt_path, os.path.join(E.work, "hl_pre_snapshot"))
     elif plan["pre"] == "dir":
         os.makedirs(os.path.join(tgt_path, "inner"))
         with open(os.path.join(tgt_path, "inner", "x.txt"), "w") as f:
@@ -160,10 +168,27 @@ def _setup_pre(E, plan, tgt_path):
             f.write("foreign")
 
 
+def _hardlink_snapshot(E, tgt_path, si):
+    """cp -al: give every file of the (successfully saved) target a second name outside it."""
+    if os.path.isfile(tgt_path):
+        os.link(tgt_path, os.path.join(E.work, f"hl_snap{si}"))
+        return 1
+    n = 0
+    root = os.path.join(E.work, f"hl_snapdir{si}")
+    for dirpath, dirnames, filenames in os.walk(tgt_path):
+        dirnames.sort()
+        rel = os.path.relpath(dirpath, tgt_path)
+        os.makedirs(os.path.join(root, rel), exist_ok=True)
+        for fn in sorted(filenames):
+            os.link(os.path.join(dirpath, fn), os.path.join(root, rel, fn))
+            n += 1
+    return n
+
+
 def _others_hash(E, tgt_path):
-    """Hash of everything in the work directory EXCEPT the target subtree: every directory
-    (also empty ones, also the target's own parents) and every file with its bytes."""
-    h = hashlib.blake2b(digest_size=12)
+    """Map of everything in the work directory EXCEPT the target subtree: every directory (also
+    empty ones, also the target's own parents) and every file with a hash of its bytes."""
+    out = {}
     tgt = os.path.abspath(tgt_path)
     for dirpath, dirnames, filenames in os.walk(E.work):
         dirnames.sort()
@@ -173,16 +198,23 @@ def _others_hash(E, tgt_path):
                 continue
             keep.append(dn)
         dirnames[:] = keep
-        h.update(b"D" + os.path.relpath(dirpath, E.work).encode() + b"\0")
+        out["D:" + os.path.relpath(dirpath, E.work)] = ""
         for fn in sorted(filenames):
             fp = os.path.join(dirpath, fn)
             if os.path.abspath(fp) == tgt:
                 continue
-            h.update(b"f" + fn.encode() + b"\0")
             with open(fp, "rb") as f:
-                h.update(f.read())
-            h.update(b"\0")
-    return h.hexdigest()
+                out["f:" + os.path.relpath(fp, E.work)] = hashlib.blake2b(
+                    f.read(), digest_size=10).hexdigest()
+    return out
+
+
+def _others_diff(a, b):
+    gone = sorted(k for k in a if k not in b)
+    new = sorted(k for k in b if k not in a)
+    chg = sorted(k for k in a if k in b and a[k] != b[k])
+    return (f"removed={gone[:4]} " if gone else "") + (f"created={new[:4]} " if new else "") + (
+        f"modified={chg[:4]}" if chg else "")
 
 
 def _final_path(plan):
@@ -212,6 +244,8 @@ def _execute(plan, focus_fault, rec_counts=None, refs=None, keep_log=True):
         final_name = _final_path(plan)
         tgt_final = os.path.join(E.work, final_name)
         _setup_pre(E, plan, tgt_final)
+        if plan.get("hardlinks") and plan["pre"] == "file":
+            bump(out["probes"], "hardlinked_foreign_file")
         last_ok = None          # version id of the last successful save to the target
         foreign = plan["pre"] in ("file", "dir")
         steps = list(plan["steps"]) + [{"op": "save", "v": len(plan["versions"]) - 1, "mode": "o",
@@ -258,10 +292,13 @@ def _execute(plan, focus_fault, rec_counts=None, refs=None, keep_log=True):
                                          rec_counts[si]["store"] if rec_counts else None)
             tag = f"step{si}"
             # ---- oracle 2: nothing but the target changed; staging is gone
-            if _others_hash(E, tgt_final) != others_before:
-                out["viol"].append(Violation("path_outside_target_altered",
-                                             f"{tag}: sibling entries of the target changed",
-                                             "path_outside_target_altered"))
+            others_after = _others_hash(E, tgt_final)
+            if others_after != others_before:
+                out["viol"].append(Violation(
+                    "path_outside_target_altered",
+                    f"{tag}: entries outside the target changed: "
+                    f"{_others_diff(others_before, others_after)} (exc={type(exc).__name__})",
+                    "path_outside_target_altered"))
             leftovers = E.tmp_entries()
             if leftovers:
                 if sc["inflight_at_return"] or E.io.stragglers_seen:
@@ -311,6 +348,9 @@ def _execute(plan, focus_fault, rec_counts=None, refs=None, keep_log=True):
                         bump(out["probes"], "recovery_save_ok")
                 last_ok = v
                 foreign = False
+                if plan.get("hardlinks") and not st.get("recovery"):
+                    if _hardlink_snapshot(E, tgt_final, si):
+                        bump(out["probes"], "hardlinked_snapshot_of_saved_object")
                 continue
             # save raised
             if recording:
@@ -589,6 +629,8 @@ def shrink(plan):
             p = copy.deepcopy(plan)
             p["env"]["zarr"] = dict(serio.DEFAULT_ENV["zarr"])
             yield p
+    if plan.get("hardlinks"):
+        yield {**plan, "hardlinks": False}
     if plan["pre"] != "absent":
         p = copy.deepcopy(plan)
         p["pre"] = "absent"
